@@ -903,7 +903,49 @@ func scanStrideGrid(c *core.Ctx) []ob {
 				if tv, ok := info.Types[start]; ok && tv.Value != nil && tv.Value.ExactString() == "0" {
 					onGrid = true
 				}
+				// the same for an offset added to that index inside the loop (`coeffs[idx+maxCols]`): 0 or a multiple of A
+				var offBad ast.Expr
 				if onGrid {
+					ast.Inspect(fs.Body, func(y ast.Node) bool {
+						ix, ok := y.(*ast.IndexExpr)
+						if !ok || offBad != nil {
+							return true
+						}
+						be, ok := unparen(ix.Index).(*ast.BinaryExpr)
+						if !ok || be.Op != token.ADD {
+							return true
+						}
+						var off ast.Expr
+						if l, ok := unparen(be.X).(*ast.Ident); ok && info.Uses[l] == idx {
+							off = be.Y
+						} else if r, ok := unparen(be.Y).(*ast.Ident); ok && info.Uses[r] == idx {
+							off = be.X
+						}
+						if off == nil {
+							return true
+						}
+						os := exprString(unparen(off))
+						okOff := os == A || strings.HasPrefix(os, A+" * ") || strings.HasSuffix(os, " * "+A) || strings.HasPrefix(os, A+" + ")
+						if tv, ok := info.Types[off]; ok && tv.Value != nil {
+							okOff = true // a constant lane offset
+						}
+						if oid, ok := unparen(off).(*ast.Ident); ok {
+							if d := singleDef(info, fd, info.Uses[oid]); d != nil {
+								ds := exprString(d)
+								if ds == A || strings.HasPrefix(ds, A+" * ") || strings.HasSuffix(ds, " * "+A) {
+									okOff = true
+								}
+							}
+						}
+						if !okOff {
+							offBad = off
+						}
+						return true
+					})
+				}
+				if offBad != nil {
+					out = append(out, withProps(violOb("STRIDEGRID", key, c.Rel(offBad.Pos()), fmt.Sprintf("%s: the index %s advances by %s = %s / … and is used with the offset %s, which is neither a constant nor a multiple of %s: the second half of the grid starts at %s", fkey, pid.Name, g.Name(), A, exprString(offBad), A, A)), propsForKey(fkey)...))
+				} else if onGrid {
 					out = append(out, withProps(okOb("STRIDEGRID", key, c.Rel(fs.Pos()), fmt.Sprintf("the index that advances by %s = %s/… starts at %s", g.Name(), A, st), true), propsForKey(fkey)...))
 				} else {
 					out = append(out, withProps(violOb("STRIDEGRID", key, c.Rel(start.Pos()), fmt.Sprintf("%s: the index %s advances by %s = %s / … but starts at %s, which is neither 0 nor %s: it walks between the grid points for every sparse packing", fkey, pid.Name, g.Name(), A, st, A)), propsForKey(fkey)...))
